@@ -238,17 +238,44 @@ pub fn sanitize(n: &str) -> String {
     n.replace([' ', '-', '/'], "_")
 }
 
-/// Parse `seq![ par![ seq![ a, b, ], ], ]` into stage -> group -> tokens.
+/// The same name under any sanitiser that replaces at least blanks, dashes and slashes and at
+/// most everything that is not alphanumeric.
+fn loose(n: &str) -> String {
+    n.chars().map(|c| if c.is_alphanumeric() { c } else { '_' }).collect()
+}
+
+pub fn token_matches(tok: &str, name: &str) -> bool {
+    tok == sanitize(name) || (loose(tok) == loose(name) && !tok.contains([' ', '-', '/']))
+}
+
+/// Parse `seq![ par![ seq![ a, b, ], ], ]` into stage -> group -> tokens. Layout (line breaks,
+/// indentation, padding, trailing commas) is the printer's business: the text is read as a
+/// sequence of the tokens `seq![`, `par![`, `]`, `,` and names (maximal runs of characters that
+/// are neither white space nor `,` nor `]`).
 pub fn parse_plan(text: &str) -> Result<Vec<Vec<Vec<String>>>, String> {
+    let mut toks: Vec<String> = Vec::new();
+    let mut cur = String::new();
+    for c in text.chars() {
+        if c.is_whitespace() || c == ',' || c == ']' {
+            if !cur.is_empty() {
+                toks.push(std::mem::take(&mut cur));
+            }
+            if c == ']' {
+                toks.push("]".into());
+            }
+        } else {
+            cur.push(c);
+        }
+    }
+    if !cur.is_empty() {
+        toks.push(cur);
+    }
     let mut stages: Vec<Vec<Vec<String>>> = Vec::new();
     let mut depth = 0;
-    for (ln, raw) in text.lines().enumerate() {
-        let l = raw.trim();
-        if l.is_empty() {
-            continue;
-        }
-        match (depth, l) {
-            (0, "seq![") => depth = 1,
+    let mut closed = false;
+    for (i, t) in toks.iter().enumerate() {
+        match (depth, t.as_str()) {
+            (0, "seq![") if !closed => depth = 1,
             (1, "par![") => {
                 stages.push(Vec::new());
                 depth = 2;
@@ -257,20 +284,17 @@ pub fn parse_plan(text: &str) -> Result<Vec<Vec<Vec<String>>>, String> {
                 stages.last_mut().unwrap().push(Vec::new());
                 depth = 3;
             }
-            (3, "],") => depth = 2,
-            (2, "],") => depth = 1,
-            (1, "]") => depth = 0,
-            (3, tok) => {
-                let t = tok.strip_suffix(',').ok_or_else(|| format!("line {}: system entry without trailing comma: {:?}", ln + 1, raw))?;
-                if t.is_empty() {
-                    return Err(format!("line {}: empty system entry", ln + 1));
-                }
-                stages.last_mut().unwrap().last_mut().unwrap().push(t.to_string());
+            (3, "]") => depth = 2,
+            (2, "]") => depth = 1,
+            (1, "]") => {
+                depth = 0;
+                closed = true;
             }
-            _ => return Err(format!("line {}: unexpected {:?} at nesting depth {}", ln + 1, raw, depth)),
+            (3, tok) if tok != "seq![" && tok != "par![" => stages.last_mut().unwrap().last_mut().unwrap().push(tok.to_string()),
+            _ => return Err(format!("token #{}: unexpected {:?} at nesting depth {}", i + 1, t, depth)),
         }
     }
-    if depth != 0 {
+    if depth != 0 || !closed {
         return Err("unbalanced brackets".into());
     }
     Ok(stages)
@@ -354,7 +378,7 @@ pub fn check_c20(sc: &Scenario, seed: u64, mut st: Option<&mut Stats>) -> Vec<Vi
                                     if tok.chars().any(|c| c.is_whitespace()) {
                                         out.push(vio("C20", "placeholder", format!("{}: the placeholder {:?} for an unnamed system is not a single token", which, tok)));
                                     }
-                                } else if *tok != sanitize(name) {
+                                } else if !token_matches(tok, name) {
                                     out.push(vio(
                                         "C20",
                                         "wrong-position",
